@@ -13,7 +13,7 @@ import iolib, gens
 from iolib import RunDir, run_cli, sig, shim_env, read_trace, le32
 from vlib import Oracle, hx, md5
 
-THEOREMS = ["C14_exit0_sound", "C14_rm_order", "C14_rm_order_compress", "C14_multi_exit0", "C14_truncation", "C14_truncation_exit", "C14_pipe_no_exception", "C14_lz4f_st_concrete_sound", "C14_lz4f_st_fresh_sound"]
+THEOREMS = ["C14_exit0_sound", "C14_rm_order", "C14_rm_order_compress", "C14_multi_exit0", "C14_truncation", "C14_truncation_exit", "C14_pipe_no_exception", "C14_lz4f_st_concrete_sound", "C14_lz4f_st_fresh_sound", "C14_old_storeCBlock_hint_refuted"]
 CORRESPONDENCE = ["IoLz4f.lz4f_st_run (concrete LZ4IO_decompressLZ4F loop over Model.FrameD) == lz4 -d -c / -t of the ST build under the stdio tracer: sequence of fread (request, return) pairs, fwrite sizes, "
                   "exit code when the loop exits the process (62/66/67/68), decoded bytes; and == Io.lz4f_st (abstract step over frame_decode) on status, output and bytes left in the source",
                   "Io.decompress (ST model) == lz4 -d/-t of the ST build under the same input, seekable flag and I/O fault: exit status class, output on exit 0, source removal",
@@ -45,6 +45,7 @@ def gen_cases(tier, seed):
     rng = random.Random(seed)
     cases = []
     # fixed corpus: regressions of the repaired defects F2, F3, F8, F9, F11 (must be VIOLATIONs again if a fix is reverted)
+    cases.append({"kind": "stloop_f21", "sseed": 21})        # F21 (repaired, b4823ff): runs first
     for k in ["reg_f2", "reg_f3", "reg_f8", "reg_f9", "reg_f11"]:
         cases.append({"kind": k, "sseed": 77})
     n = {"quick": 1, "search": 3, "thorough": 3}[tier]
@@ -62,7 +63,6 @@ def gen_cases(tier, seed):
     for i in range({"quick": 16, "search": 16, "thorough": 64}[tier]):
         cases.append({"kind": "fault", "op": ["dec", "dec", "test", "comp", "legacy", "dec_stdout", "dec_multi", "comp_multi"][i % 8],
                       "kinds": rng.choice(shapes), "sseed": rng.randrange(1 << 48), "sparse": (i // 8) % 2 == 1})
-    cases.append({"kind": "stloop_f21", "sseed": 21})
     for i in range({"quick": 10, "search": 20, "thorough": 40}[tier]):
         cases.append({"kind": "stloop", "sseed": rng.randrange(1 << 48), "big": i % 3 == 2})
     if tier == "thorough":
@@ -789,8 +789,5 @@ def run_case(st, case):
         st["rd"].clean()
     return acc.out()
 
-F21_OPEN = False    # set to False once lib/lz4frame.c (dstage_storeCBlock hint) is repaired: the cases then are plain regressions
 def classify(r):
-    if F21_OPEN and "bytes beyond the end of the frame" in str(r.get("what", "")):
-        return "F21"       # LZ4F hint 4 bytes too large with block checksums: ST lz4 -d loses the start of what follows the frame
-    return None
+    return None        # C14 has no known, unrepaired finding (F2, F3, F8, F9, F11, F21 are fixed in /repo; F4 belongs to C15)
